@@ -63,10 +63,13 @@ def r_tol_index(rep, f):
             continue
         for ix, parents in tast.find_with_parents(b["body"], is_tol_index):
             n += 1
-            loops = [p for p in parents if p.get("k") == "For"]
+            loops = [p for p in parents if p.get("k") == "For" or (p.get("k") == "Closure" and p.get("params"))]
             key = "R-TOL-INDEX:%s:%s" % (b["def"], tast.render(ix))
             i = ix["i"]
             def loop_index_ids(lp):
+                if lp.get("k") == "Closure":
+                    # a closure handed to fold/map/for_each over 0..n or enumerate(): its usize parameters index the component
+                    return {q["id"] for q in tast.find(lp["params"], lambda z: z.get("k") == "PBind" and z.get("ty") in ("usize", "&usize"))}
                 ids = {lp["pat"].get("id")}
                 if lp["pat"].get("k") == "PTuple" and tast.contains(lp["iter"], lambda q: q.get("k") == "MethodCall" and q.get("name") == "enumerate"):
                     first = lp["pat"]["pats"][0]
@@ -80,7 +83,34 @@ def r_tol_index(rep, f):
                 rep.ok("R-TOL-INDEX", key, "fixed component %s outside component loops" % i.get("v"), nontrivial=False)
             else:
                 rep.violation("R-TOL-INDEX", key, "a tolerance is indexed by `%s` inside a loop over `%s`: component i is not scaled by its own tolerance"
-                              % (tast.render(i), loops[-1]["pat"].get("name") if loops else "?"), ix.get("sp"))
+                              % (tast.render(i), (loops[-1].get("pat") or {}).get("name", "?") if loops else "?"), ix.get("sp"))
+        # a fixed component read outside the loops (Radau's Newton tolerance from rtol[0]) must stay a scalar control
+        # parameter: nothing derived from it may be used inside a loop that scales components by their own tolerance
+        fixed = [ix for ix, parents in tast.find_with_parents(b["body"], is_tol_index)
+                 if ix["i"].get("k") == "Lit" and not [p for p in parents if p.get("k") == "For"]]
+        if fixed:
+            tainted = set()
+            lets = tast.find(b["body"], lambda z: z.get("k") == "Let" and z.get("init") is not None and z["pat"].get("k") == "PBind")
+            changed = True
+            while changed:
+                changed = False
+                for l in lets:
+                    if l["pat"]["id"] in tainted:
+                        continue
+                    if tast.contains(l["init"], lambda q: any(q is fx for fx in fixed) or (q.get("k") == "Path" and q.get("id") in tainted)):
+                        tainted.add(l["pat"]["id"])
+                        changed = True
+            comp_loops = [lp for lp in tast.find(b["body"], lambda z: z.get("k") == "For")
+                          if tast.contains(lp["body"], lambda q: is_tol_index(q) and q["i"].get("k") == "Path" and q["i"].get("id") == lp["pat"].get("id"))]
+            for lp in comp_loops:
+                uses = tast.find(lp["body"], lambda q: (q.get("k") == "Path" and q.get("id") in tainted) or any(q is fx for fx in fixed))
+                key = "R-TOL-INDEX:%s:fixed-component-in-loop" % b["def"]
+                if uses:
+                    rep.violation("R-TOL-INDEX", key, "`%s` derives from the tolerance of one fixed component (%s) and is used inside the loop over `%s` that scales every component by its own tolerance: "
+                                  "all components are then controlled by that one entry" % (tast.render(uses[0]), tast.render(fixed[0]), lp["pat"].get("name")), uses[0].get("sp"))
+                    break
+            else:
+                rep.ok("R-TOL-INDEX", "R-TOL-INDEX:%s:fixed-component" % b["def"], "%d fixed-component read(s) stay outside the %d per-component loop(s)" % (len(fixed), len(comp_loops)))
     if n < 15:
         rep.inconc("R-TOL-INDEX", "R-TOL-INDEX:floor", "only %d tolerance index sites found" % n)
     else:
